@@ -152,7 +152,7 @@ func runRecord(e *env, path string, n, steps int) {
 					err = real.Delete(rk(k))
 					ev["op"] = "del"
 				} else {
-					err = real.Update(rk(k), nil)
+					err = real.Update(rk(k), [][]byte{nil, {}}[e.r.Intn(2)])
 					ev["op"] = "putempty"
 				}
 				ev["k"] = k
@@ -169,6 +169,9 @@ func runRecord(e *env, path string, n, steps int) {
 						ops[i].V = 0
 					}
 					keys[i], vals[i] = rk(ops[i].K), tk.ValBytes(ops[i].V)
+					if ops[i].V == 0 && e.r.Intn(2) == 0 {
+						vals[i] = []byte{} // empty but non-nil: a deletion all the same
+					}
 				}
 				err = real.UpdateBatch(keys, vals)
 				ev["op"], ev["ops"] = "batch", ops
